@@ -312,6 +312,84 @@ def gen_rowstoch(rng):
     return {"kind": rng.choice(["mn", "mn", "fg"]), "n": n, "cards": cards, "factors": factors, "rowstoch": True}
 
 
+def gen_long(rng):
+    """mid-sized models: a chain or a random tree-shaped Bayesian network on 9..12 binary/ternary nodes (8..11 cliques;
+    9 = 1 mod 8), occasionally with one extra parent"""
+    n = rng.choice([9, 9, 10, 11, 12])
+    order = list(range(n))
+    rng.shuffle(order)
+    edges = []
+    for i in range(1, n):
+        p = order[i - 1] if rng.random() < 0.6 else order[rng.randrange(i)]
+        edges.append((p, order[i]))
+    cards = [rng.choice([2, 2, 2, 3]) for _ in range(n)]
+    factors = []
+    for v in range(n):
+        pa = [a for (a, b) in edges if b == v]
+        ncol = 1
+        for p in pa:
+            ncol *= cards[p]
+        cols = [common.rand_column(rng, cards[v], zeros=False) for _ in range(ncol)]
+        factors.append({"scope": [v] + pa, "values": [F2(cols[c][s]) for s in range(cards[v]) for c in range(ncol)]})
+    rng.shuffle(edges)
+    return {"kind": "bn", "n": n, "cards": cards, "edges": [list(e) for e in edges], "factors": factors, "long": True}
+
+
+def gen_bigcard(rng):
+    """a variable with 257 states (more than a byte can index) between two small ones"""
+    cards = [2, 257, 2]
+    edges = [(0, 1), (1, 2)]
+    factors = []
+    for v in range(3):
+        pa = [a for (a, b) in edges if b == v]
+        ncol = 1
+        for p in pa:
+            ncol *= cards[p]
+        cols = []
+        for _ in range(ncol):
+            if cards[v] == 257:
+                w = [rng.randint(0, 3) for _ in range(257)]
+                w[rng.randrange(257)] += 1
+                tot = sum(w)
+                # exact dyadic column: weights over a power of two
+                den = 1
+                while den < tot:
+                    den *= 2
+                w[0] += den - tot
+                cols.append([Fraction(x, den) for x in w])
+            else:
+                cols.append(common.rand_column(rng, cards[v], zeros=False))
+        factors.append({"scope": [v] + pa, "values": [F2(cols[c][s]) for s in range(cards[v]) for c in range(ncol)]})
+    return {"kind": "bn", "n": 3, "cards": cards, "edges": [list(e) for e in edges], "factors": factors, "bigcard": True}
+
+
+def gen_sloppy(rng):
+    """a small Bayesian network whose CPD columns are typed with two decimals and sum to 0.99..1.01 (accepted by
+    check_model's 0.01 tolerance, not exactly normalised); the values are the exact rationals of those floats"""
+    while True:
+        n = rng.randint(2, 4)
+        _, edges = common.rand_dag(rng, n, p=0.7)
+        if connected(n, edges):
+            break
+    cards = [rng.choice([2, 3]) for _ in range(n)]
+    factors = []
+    for v in range(n):
+        pa = [a for (a, b) in edges if b == v]
+        ncol = 1
+        for p in pa:
+            ncol *= cards[p]
+        cols = []
+        for _ in range(ncol):
+            tot = rng.choice([99, 100, 101, 101, 99])
+            cuts = sorted(rng.randint(1, tot - 1) for _ in range(cards[v] - 1))
+            parts = [b - a for a, b in zip([0] + cuts, cuts + [tot])]
+            if min(parts) == 0:
+                parts = [max(1, x) for x in parts]
+            cols.append([Fraction(float(Fraction(x, 100))) for x in parts])
+        factors.append({"scope": [v] + pa, "values": [F2(cols[c][s]) for s in range(cards[v]) for c in range(ncol)]})
+    return {"kind": "bn", "n": n, "cards": cards, "edges": [list(e) for e in edges], "factors": factors, "sloppy": True}
+
+
 def gen_wide(rng):
     """one factor over 9 binary variables (a set of small ints iterates in increasing order only below 8)
     plus pendant pair factors; integer variable names"""
@@ -416,8 +494,8 @@ def gen_jt_nonrip(rng):
             "rip": False}
 
 
-SSTYLES = ["str", "str", "int", "mixed", "perm", "onebased", "bool"]
-VSTYLES = common.NAME_STYLES + ["substr"]
+SSTYLES = ["str", "str", "int", "mixed", "perm", "onebased", "bool", "big"]
+VSTYLES = common.NAME_STYLES + ["substr", "bigint"]
 HEUR = ["H1", "H2", "H3", "H4", "H5", "H6", "order"]
 
 
@@ -440,6 +518,12 @@ def cases(tier, seed):
         models.append(gen_wide(rng))
     for _ in range(3 if tier == "quick" else 10):
         models.append(gen_rowstoch(rng))
+    for _ in range(1 if tier == "quick" else 6):
+        models.append(gen_long(rng))
+    for _ in range(1 if tier == "quick" else 2):
+        models.append(gen_bigcard(rng))
+    for _ in range(3 if tier == "quick" else 12):
+        models.append(gen_sloppy(rng))
     c0 = rng.randrange(len(CYC_SHAPES))
     for i in range(3 if tier == "quick" else 2 * len(CYC_SHAPES)):
         models.append(gen_cyc(rng, c0 + i))
@@ -450,12 +534,13 @@ def cases(tier, seed):
     out = []
     for mi, m in enumerate(models):
         m["vstyle"] = "int" if m.get("wide") else rng.choice(VSTYLES)
-        m["sstyle"] = rng.choice(SSTYLES)
+        m["sstyle"] = "int" if m.get("bigcard") else rng.choice(SSTYLES)
         m["nameseed"] = rng.randint(0, 10 ** 9)
         m["qseed"] = rng.randint(0, 10 ** 9)
-        m["backend"] = "torch" if mi % 6 == 5 and not m.get("scaled") and not m.get("rowstoch") else "numpy"
+        m["backend"] = "torch" if mi % 6 == 5 and not m.get("scaled") and not m.get("rowstoch") \
+            and not m.get("sloppy") and not m.get("bigcard") else "numpy"
         # which of the optional streams run on this model (every stream runs in both tiers)
-        m["session"] = (mi % 2 == 0)
+        m["session"] = (mi % 2 == 0) and not m.get("long") and not m.get("bigcard")
         m["tier"] = tier
         k = 2 if tier == "quick" else 7
         m["heur"] = list(HEUR) if m.get("cyc") else rng.sample(HEUR, k)
@@ -485,6 +570,10 @@ def var_names(case):
         pool = ["x1", "x10", "x", "x11", "1x", "G", "G2", "G20", "x1x", "0", "00", "x_", "_x"]
         rng.shuffle(pool)
         return pool[:case["n"]]
+    if case["vstyle"] == "bigint":      # integers above the small-int cache: equal objects are not identical
+        pool = [257 + 37 * i for i in range(case["n"] + 3)]
+        rng.shuffle(pool)
+        return pool[:case["n"]]
     if case["vstyle"] == "int" and case["n"] > 8:
         pool = list(range(0, case["n"] + 3))
         rng.shuffle(pool)
@@ -500,6 +589,8 @@ def state_names(case):
         st = case["sstyle"]
         if st == "int":
             out.append(list(range(c)))
+        elif st == "big":               # integers above 256
+            out.append([1000 * (i + 1) for i in range(c)])
         elif st == "perm":              # integers that are not their positions
             out.append([[0], [1, 0], [2, 0, 1], [3, 1, 0, 2]][c - 1])
         elif st == "onebased":
@@ -660,6 +751,31 @@ def brute_table(joint, cards, keep, ev=None, weights=None, op="sum"):
     return [out.get(k, Fraction(0)) for k in itertools.product(*[range(cards[v]) for v in keep])]
 
 
+def rebuild(x):
+    """an equal but not identical object (class N): names and states given to a query are never the objects stored
+    in the model"""
+    if isinstance(x, bool):
+        return x
+    if isinstance(x, str):
+        return (x + "_")[:-1]
+    if isinstance(x, tuple):
+        return tuple(rebuild(e) for e in x)
+    if isinstance(x, int):
+        return int(str(x))
+    return x
+
+
+def as_container(names, how):
+    """the variables argument in the container types BeliefPropagation.query accepts"""
+    if how == "tuple":
+        return tuple(names)
+    if how == "set":
+        return set(names)
+    if how == "keys":
+        return {k: None for k in names}.keys()
+    return list(names)
+
+
 def close_tab(impl, model):
     """every entry within 1e-9 RELATIVE to the exact value of that entry (all arithmetic is on non-negative
     numbers: no cancellation); an exact zero of the model must be (numerically) zero: below 1e-9 of the table's
@@ -758,7 +874,8 @@ def cal_check(bp, cx, ops=(("sum", "c02_calibrate", "calibrate"), ("max", "c02_m
             if rip:
                 bt = fr(bbel[i])
                 pt = brute_table(joint, cards, [vid[v] for v in c], op=op)
-                if bt != pt:
+                # (not exactly normalised decimal CPDs: pgmpy's clique potentials are rounded products)
+                if (not close_tab([float(x) for x in bt], pt)) if cx.sloppy else (bt != pt):
                     return bad("impl!=spec:clique-potentials-product", {"op": op, "clique": [vid[v] for v in c],
                                                                         "at": label}, key=key, tags=tags), None
                 if mt != bt:
@@ -788,7 +905,7 @@ def cal_check(bp, cx, ops=(("sum", "c02_calibrate", "calibrate"), ("max", "c02_m
             if not close_tab(it, mt):
                 return bad("impl!=model:sepset-belief", {"op": op, "edge": [i, j], "impl": it,
                                                            "model": [float(x) for x in mt], "at": label}, key=key, tags=tags), None
-            if rip and mt != fr(bsep[k]):
+            if rip and mt != fr(bsep[k]) and not cx.sloppy:
                 return bad("model!=spec:sepset-belief-not-marginal", {"op": op, "edge": [i, j]}, key=key, tags=tags), None
             oper = "marginalize" if op == "sum" else "maximize"
             if rip:
@@ -800,14 +917,16 @@ def cal_check(bp, cx, ops=(("sum", "c02_calibrate", "calibrate"), ("max", "c02_m
     return None, cliques
 
 
-def query_check(bp, cx, Q, ev, jointflag, ve=None, label="", model_side=True, evidence_none=False):
+def query_check(bp, cx, Q, ev, jointflag, ve=None, label="", model_side=True, evidence_none=False,
+                container="list"):
     """one posterior query on the engine: the model's answer on the engine's current tree must equal brute force
     exactly; pgmpy's answer, brute force and VariableElimination must agree; the caller's arguments must come back
     unchanged; the result carries the model's state names.  Returns bad | None | 'zero' (P(evidence)=0)."""
     names, sts, sbn, vid, cards, joint, key, tags = cx.names, cx.sts, cx.sbn, cx.vid, cx.cards, cx.joint, cx.key, cx.tags
-    Qn = [names[v] for v in Q]
-    evn = {names[v]: sts[v][s] for v, s in ev.items()}
-    detail = {"Q": Q, "evidence": {str(v): s for v, s in ev.items()}, "joint": jointflag, "at": label}
+    Qn = [rebuild(names[v]) for v in Q]
+    evn = {rebuild(names[v]): rebuild(sts[v][s]) for v, s in ev.items()}
+    detail = {"Q": Q, "evidence": {str(v): s for v, s in ev.items()}, "joint": jointflag, "at": label,
+              "variables_as": container}
     bt = brute_table(joint, cards, Q, ev=ev)
     bnorm = normalise(bt)
     if model_side:
@@ -820,25 +939,28 @@ def query_check(bp, cx, Q, ev, jointflag, ve=None, label="", model_side=True, ev
         mtab = fr(mtab)
         if not cert:
             return bad("checker:query-certificate", dict(detail, sub=msub), key=key, tags=tags)
-        if fr(mbrute) != bt:
+        if (not close_tab([float(x) for x in fr(mbrute)], bt)) if cx.sloppy else (fr(mbrute) != bt):
             return bad("model-inconsistent:brute", detail, key=key, tags=tags)
-        if mtab != bt:
+        if mtab != fr(mbrute):
             return bad("model!=spec:query", dict(detail, model=[float(x) for x in mtab], brute=[float(x) for x in bt]),
                        key=key, tags=tags)
     else:
         mper = None
     if bnorm is None:
         return "zero"
-    Qarg = list(Qn)
+    Qarg = as_container(Qn, container)
     evarg = None if (evidence_none and not evn) else dict(evn)
     Qsnap, evsnap = list(Qarg), (None if evarg is None else dict(evarg))
     try:
         res = bp.query(Qarg, evidence=evarg, joint=jointflag, show_progress=False)
     except Exception as e:  # every query with evidence by name must succeed
         return bad("impl!=spec:query-raises", dict(detail, error=repr(e)[:300]), key=key, tags=tags)
-    if Qarg != Qsnap or evarg != evsnap or (evarg is not None and list(evarg) != list(evsnap)):
+    if list(Qarg) != Qsnap or evarg != evsnap or (evarg is not None and list(evarg) != list(evsnap)):
         return bad("impl!=spec:query-mutates-its-arguments", dict(detail, variables=repr(Qarg), evidence=repr(evarg)),
                    key=key, tags=tags)
+    from pgmpy.factors.discrete import DiscreteFactor
+    if (jointflag and not isinstance(res, DiscreteFactor)) or ((not jointflag) and not isinstance(res, dict)):
+        return bad("impl!=spec:query-return-type", dict(detail, got=type(res).__name__), key=key, tags=tags)
     try:
         if jointflag:
             it = table(res, Qn, sbn)
@@ -856,7 +978,7 @@ def query_check(bp, cx, Q, ev, jointflag, ve=None, label="", model_side=True, ev
             for pos_, v in enumerate(Q):
                 it = table(res[names[v]], [names[v]], sbn)
                 b1 = normalise(brute_table(joint, cards, [v], ev=ev))
-                if mper is not None and normalise(fr(mper[pos_])) != b1:
+                if mper is not None and not cx.sloppy and normalise(fr(mper[pos_])) != b1:
                     return bad("model!=spec:query-marginal", dict(detail, var=v), key=key, tags=tags)
                 if not close_tab(it, b1):
                     return bad("impl!=spec:query-marginal", dict(detail, var=v, impl=it,
@@ -868,8 +990,8 @@ def query_check(bp, cx, Q, ev, jointflag, ve=None, label="", model_side=True, ev
 
 def map_check(bp, cx, Q, ev, label="", variables_none=False):
     names, sts, cards, joint, key, tags = cx.names, cx.sts, cx.cards, cx.joint, cx.key, cx.tags
-    Qn = [names[v] for v in Q]
-    evn = {names[v]: sts[v][s] for v, s in ev.items()}
+    Qn = [rebuild(names[v]) for v in Q]
+    evn = {rebuild(names[v]): rebuild(sts[v][s]) for v, s in ev.items()}
     detail = {"Q": Q, "evidence": {str(v): s for v, s in ev.items()}, "at": label, "variables_none": variables_none}
     bnorm = normalise(brute_table(joint, cards, Q, ev=ev))
     if bnorm is None:
@@ -901,8 +1023,10 @@ def map_check(bp, cx, Q, ev, label="", variables_none=False):
     return None
 
 
-def virtual_check(bp, cx, rng, label="", use_map=False):
-    """query with virtual evidence (TabularCPD or single-variable DiscreteFactor) on the given engine"""
+def virtual_check(bp, cx, rng, label="", use_map=False, jointflag=True, with_ev=None, ve=None, root_ev=None):
+    """query with virtual evidence (TabularCPD or single-variable DiscreteFactor) on the given engine, for the
+    option product joint in {True, False} x hard evidence in {none, some}; the return TYPE and every table are
+    checked; VariableElimination (if given) gets the same call"""
     from pgmpy.factors.discrete import TabularCPD, DiscreteFactor
     names, sts, sbn, cards, joint, key, tags, n = cx.names, cx.sts, cx.sbn, cx.cards, cx.joint, cx.key, cx.tags, cx.n
     allv = list(range(n))
@@ -913,7 +1037,14 @@ def virtual_check(bp, cx, rng, label="", use_map=False):
     rest = [v for v in allv if v not in V]
     Q = rng.sample(rest, rng.randint(1, min(2, len(rest))))
     rest2 = [v for v in rest if v not in Q]
-    E = rng.sample(rest2, rng.randint(0, min(1, len(rest2))))
+    if with_ev is None:
+        E = rng.sample(rest2, rng.randint(0, min(1, len(rest2))))
+    elif with_ev and rest2:
+        E = rng.sample(rest2, rng.randint(1, min(2, len(rest2))))
+        if root_ev is not None and root_ev in rest2 and root_ev not in E:      # hard evidence on a root
+            E[0] = root_ev
+    else:
+        E = []
     pos = [a for a, p in joint.items() if p > 0]
     if not pos:
         return None
@@ -922,56 +1053,75 @@ def virtual_check(bp, cx, rng, label="", use_map=False):
     weights = {v: [Fraction(rng.randint(1, 8), 8) for _ in range(cards[v])] for v in V}
     vev = []
     for v in V:
+        nm = rebuild(names[v])
+        stn = [rebuild(x) for x in sts[v]]
         if rng.random() < 0.5:
-            vev.append(TabularCPD(names[v], cards[v], [[float(w)] for w in weights[v]], state_names={names[v]: sts[v]}))
+            vev.append(TabularCPD(nm, cards[v], [[float(w)] for w in weights[v]], state_names={nm: stn}))
         else:
-            vev.append(DiscreteFactor([names[v]], [cards[v]], [float(w) for w in weights[v]],
-                                      state_names={names[v]: sts[v]}))
+            vev.append(DiscreteFactor([nm], [cards[v]], [float(w) for w in weights[v]], state_names={nm: stn}))
     vsnap = [table(f if isinstance(f, DiscreteFactor) and not isinstance(f, TabularCPD) else f.to_factor(),
                    [f.variables[0]], sbn) for f in vev]
-    Qn = [names[v] for v in Q]
-    evn = {names[v]: sts[v][s] for v, s in ev.items()}
-    detail = {"Q": Q, "evidence": {str(v): s for v, s in ev.items()}, "at": label,
+    Qn = [rebuild(names[v]) for v in Q]
+    evn = {rebuild(names[v]): rebuild(sts[v][s]) for v, s in ev.items()}
+    detail = {"Q": Q, "evidence": {str(v): s for v, s in ev.items()}, "at": label, "joint": jointflag,
               "virtual": {str(v): [float(w) for w in weights[v]] for v in V}}
     bnorm = normalise(brute_table(joint, cards, Q, ev=ev, weights=weights))
     if bnorm is None:
         return None
-    evarg = dict(evn)
-    try:
+    engines = [("BP", bp)] + ([("VE", ve)] if (ve is not None and not use_map) else [])
+    for ename, eng in engines:
+        evarg = dict(evn)
+        d2 = dict(detail, engine=ename)
+        try:
+            if use_map:
+                mp = eng.map_query(list(Qn), evidence=evarg, virtual_evidence=vev, show_progress=False)
+            else:
+                res = eng.query(list(Qn), evidence=evarg, virtual_evidence=vev, joint=jointflag, show_progress=False)
+        except Exception as e:
+            return bad("impl!=spec:virtual-evidence-query-raises", dict(d2, error=repr(e)[:300]), key=key, tags=tags)
+        if evarg != evn:
+            return bad("impl!=spec:query-mutates-its-arguments", dict(d2, evidence=repr(evarg)), key=key, tags=tags)
+        vafter = [table(f if isinstance(f, DiscreteFactor) and not isinstance(f, TabularCPD) else f.to_factor(),
+                        [f.variables[0]], sbn) for f in vev]
+        if vafter != vsnap:
+            return bad("impl!=spec:query-mutates-its-arguments", dict(d2, what="virtual_evidence"), key=key, tags=tags)
+        if sorted(map(repr, eng.model.nodes())) != sorted(map(repr, names)):
+            return bad("impl!=spec:engine-model-not-restored", dict(d2, nodes=sorted(map(repr, eng.model.nodes()))),
+                       key=key, tags=tags)
         if use_map:
-            mp = bp.map_query(list(Qn), evidence=evarg, virtual_evidence=vev, show_progress=False)
-        else:
-            res = bp.query(list(Qn), evidence=evarg, virtual_evidence=vev, joint=True, show_progress=False)
-            it = table(res, Qn, sbn)
-    except StateNameMismatch as e:
-        return bad("impl!=spec:result-state-names", dict(detail, error=str(e)), key=key, tags=tags)
-    except Exception as e:
-        return bad("impl!=spec:virtual-evidence-query-raises", dict(detail, error=repr(e)[:300]), key=key, tags=tags)
-    if evarg != evn:
-        return bad("impl!=spec:query-mutates-its-arguments", dict(detail, evidence=repr(evarg)), key=key, tags=tags)
-    vafter = [table(f if isinstance(f, DiscreteFactor) and not isinstance(f, TabularCPD) else f.to_factor(),
-                    [f.variables[0]], sbn) for f in vev]
-    if vafter != vsnap:
-        return bad("impl!=spec:query-mutates-its-arguments", dict(detail, what="virtual_evidence"), key=key, tags=tags)
-    if sorted(map(repr, bp.model.nodes())) != sorted(map(repr, names)):
-        return bad("impl!=spec:engine-model-not-restored", dict(detail, nodes=sorted(map(repr, bp.model.nodes()))),
-                   key=key, tags=tags)
-    if use_map:
-        idx = 0
-        for v in Q:
-            pos_ = [i for i, s in enumerate(sts[v]) if s == mp.get(names[v], object()) and type(s) is type(mp[names[v]])]
-            if not pos_:
-                pos_ = [i for i, s in enumerate(sts[v]) if not isinstance(s, (str, bool)) and names[v] in mp
-                        and not isinstance(mp[names[v]], (str, bool)) and hasattr(mp[names[v]], "__index__")
-                        and s == int(mp[names[v]])]
-            if not pos_:
-                return bad("impl!=spec:map_query-state-name", dict(detail, var=v, got=repr(mp.get(names[v]))), key=key, tags=tags)
-            idx = idx * cards[v] + pos_[0]
-        if float(bnorm[idx]) < float(max(bnorm)) * (1 - 1e-9):
-            return bad("impl!=spec:map_query-not-maximal", dict(detail, got=float(bnorm[idx])), key=key, tags=tags)
-    elif not close_tab(it, bnorm):
-        return bad("impl!=spec:virtual-evidence-query", dict(detail, impl=it, brute=[float(x) for x in bnorm]),
-                   key=key, tags=tags)
+            idx = 0
+            for v in Q:
+                got = mp.get(names[v], None) if names[v] in mp else None
+                pos_ = [i for i, s_ in enumerate(sts[v]) if names[v] in mp and s_ == got and type(s_) is type(got)]
+                if not pos_:
+                    pos_ = [i for i, s_ in enumerate(sts[v]) if names[v] in mp and not isinstance(s_, (str, bool))
+                            and not isinstance(got, (str, bool)) and hasattr(got, "__index__") and s_ == int(got)]
+                if not pos_:
+                    return bad("impl!=spec:map_query-state-name", dict(d2, var=v, got=repr(got)), key=key, tags=tags)
+                idx = idx * cards[v] + pos_[0]
+            if float(bnorm[idx]) < float(max(bnorm)) * (1 - 1e-9):
+                return bad("impl!=spec:map_query-not-maximal", dict(d2, got=float(bnorm[idx])), key=key, tags=tags)
+            continue
+        if (jointflag and not isinstance(res, DiscreteFactor)) or ((not jointflag) and not isinstance(res, dict)):
+            return bad("impl!=spec:query-return-type", dict(d2, got=type(res).__name__), key=key, tags=tags)
+        try:
+            if jointflag:
+                it = table(res, Qn, sbn)
+                if not close_tab(it, bnorm):
+                    return bad("impl!=spec:virtual-evidence-query", dict(d2, impl=it, brute=[float(x) for x in bnorm]),
+                               key=key, tags=tags)
+            else:
+                if set(map(repr, res.keys())) != set(map(repr, Qn)):
+                    return bad("impl!=spec:query-keys", dict(d2, got=sorted(map(repr, res.keys()))), key=key, tags=tags)
+                for v in Q:
+                    fv = [f for kk, f in res.items() if repr(kk) == repr(names[v])][0]
+                    it = table(fv, [names[v]], sbn)
+                    b1 = normalise(brute_table(joint, cards, [v], ev=ev, weights=weights))
+                    if not close_tab(it, b1):
+                        return bad("impl!=spec:virtual-evidence-query-marginal",
+                                   dict(d2, var=v, impl=it, brute=[float(x) for x in b1]), key=key, tags=tags)
+        except StateNameMismatch as e:
+            return bad("impl!=spec:result-state-names", dict(d2, error=str(e)), key=key, tags=tags)
     return None
 
 
@@ -1373,6 +1523,13 @@ def run_model_case(case, drv):
     cx.names, cx.sts, cx.sbn, cx.vid, cx.cards, cx.n, cx.kind = names, sts, sbn, vid, cards, n, kind
     cx.joint = brute_joint(case)
     cx.key, cx.tags, cx.rip, cx.drv = key, tags, rip, drv
+    cx.sloppy = bool(case.get("sloppy"))
+    if cx.sloppy:
+        tags.append("CPD columns typed with two decimals (sums 0.99..1.01)")
+    if case.get("long"):
+        tags.append("9-12 node Bayesian network")
+    if case.get("bigcard"):
+        tags.append("variable with 257 states")
     joint = cx.joint
     snap0 = snapshot(m, kind, sbn)
 
@@ -1402,11 +1559,11 @@ def run_model_case(case, drv):
             if Q:
                 qs.append((Q, E))
         tags.append("queries=all-subsets")
-        cap = 24 if case.get("tier") == "quick" else 40
+        cap = 6 if case.get("bigcard") else (24 if case.get("tier") == "quick" else 40)
         if len(qs) > cap:
             qs = rng.sample(qs, cap)
     else:
-        for _ in range(2 if case.get("wide") else (7 if case.get("tier") == "quick" else 10)):
+        for _ in range(2 if (case.get("wide") or case.get("long")) else (7 if case.get("tier") == "quick" else 10)):
             k = rng.randint(1, min(3, n))
             Q = rng.sample(allv, k)
             rest = [v for v in allv if v not in Q]
@@ -1432,6 +1589,9 @@ def run_model_case(case, drv):
     # reference VE: VariableElimination(FactorGraph).query raises AttributeError ('states') in the default
     # greedy path (observation reported to C01), so factor graphs are referred to their Markov network
     ve = VariableElimination(m.to_markov_model() if kind == "fg" else m)
+    # decimal CPDs are not exactly normalised: VariableElimination's barren-node pruning assumes they are (C01's
+    # domain), so it is not used as a reference there
+    ve_ref = None if cx.sloppy else ve
     n_ev = 0
     n_multi_ev = 0
     pos = [a for a, p in joint.items() if p > 0]
@@ -1443,7 +1603,8 @@ def run_model_case(case, drv):
         jointflag = (qi % 3 != 2)
         Q = list(Q)
         rng.shuffle(Q)
-        r = query_check(bp, cx, Q, ev, jointflag, ve=ve, label="query %d" % qi, evidence_none=(qi % 2 == 1))
+        r = query_check(bp, cx, Q, ev, jointflag, ve=ve_ref, label="query %d" % qi, evidence_none=(qi % 2 == 1),
+                        container=["list", "tuple", "set"][qi % 3])
         if r == "zero":
             tags.append("zero-probability evidence (not compared)")
             continue
@@ -1468,13 +1629,21 @@ def run_model_case(case, drv):
             return r
         tags.append("map_query(variables=None)")
 
-    # ---- virtual evidence (Bayesian networks): fresh engine, also through map_query
-    if kind == "bn":
-        for i in range(2):
-            r = virtual_check(BeliefPropagation(m), cx, rng, label="virtual %d" % i, use_map=(i == 1 and qi % 2 == 0))
-            if r is not None:
-                return r
-            tags.append("virtual-evidence")
+    # ---- virtual evidence (Bayesian networks), fresh engines: the full product joint x hard evidence for BP and VE,
+    # with hard evidence on a root when there is one, and once through map_query
+    if kind == "bn" and n >= 2:
+        roots = [v for v in allv if not any(b == v for a, b in case["edges"])]
+        for jf in (True, False):
+            for we in (False, True):
+                r = virtual_check(BeliefPropagation(m), cx, rng, label="virtual joint=%s evidence=%s" % (jf, we),
+                                  jointflag=jf, with_ev=we, ve=(None if cx.sloppy else VariableElimination(m)),
+                                  root_ev=(rng.choice(roots) if roots else None))
+                if r is not None:
+                    return r
+        r = virtual_check(BeliefPropagation(m), cx, rng, label="virtual map", use_map=True)
+        if r is not None:
+            return r
+        tags.append("virtual-evidence x joint x hard evidence")
 
     # nothing so far may have changed the caller's model
     if snapshot(m, kind, sbn) != snap0:
